@@ -15,6 +15,7 @@ use crate::render::render;
 use crate::run::verif_root;
 use crate::Ctx;
 use proptest::prelude::RngCore;
+use rayon::prelude::*;
 use serde_json::{json, Value};
 use std::sync::atomic::{AtomicUsize, Ordering};
 use std::sync::Mutex;
@@ -524,6 +525,25 @@ mm 0{}", "+0".repeat(n)));
 }
 
 pub fn replay(v: &Value) -> Option<Result<(), String>> {
+    if v.get("kind")?.as_str()? == "cli_no_crash" {
+        // the source is stored unless it is huge; then it is regenerated from the stress list by its tag
+        let mut src = v.get("src")?.as_str()?.to_string();
+        if src.is_empty() {
+            let tag = v.get("stress_tag")?.as_str()?;
+            src = stress_inputs().into_iter().find(|(_, t)| t == tag)?.0;
+        }
+        let cli = std::env::var("VERIF_CLI").ok()?;
+        let dir = crate::run::scratch_dir().join("c16-cli-replay");
+        let _ = std::fs::create_dir_all(&dir);
+        let f = dir.join("s.asm");
+        std::fs::write(&f, &src).ok()?;
+        let out = std::process::Command::new("timeout").arg("120").arg(&cli).arg("-s").arg(&f).arg("-o").arg(dir.join("o.hex")).arg("-e").arg(dir.join("o.eep.hex")).env("HOME", &dir).output().ok()?;
+        let _ = std::fs::remove_dir_all(&dir);
+        return Some(match out.status.code() {
+            Some(0) | Some(1) => Ok(()),
+            other => Err(format!("the command-line tool ended with {:?}: {}", other, crate::run::truncate(String::from_utf8_lossy(&out.stderr).trim(), 200))),
+        });
+    }
     if v.get("kind")?.as_str()? != "isolated_no_crash" {
         return None;
     }
@@ -653,6 +673,7 @@ pub fn run(ctx: &Ctx) -> Result<Ev, String> {
         }
     }
     let mut total = total.into_inner().unwrap();
+    cli_stress_leg(&mut total, ctx.thorough)?;
     total.extra.insert("heads".into(), json!(nh));
     total.extra.insert("excluded_known_slow_inputs_in_quick_tier".into(), json!(if ctx.thorough { 0 } else { SLOW_KNOWN.len() }));
     total.extra.insert("operand_dictionary".into(), json!(OPERANDS.len()));
@@ -661,6 +682,93 @@ pub fn run(ctx: &Ctx) -> Result<Ev, String> {
     Ok(total)
 }
 
+/// The structural stress inputs once more through the command-line tool as `cargo build` produces it
+/// (unoptimised: every recursion level costs several times the stack of the optimised harness build),
+/// on the process's default 8 MiB main stack: the tool must end by itself with an exit status (0 or 1),
+/// never by a signal, within the watchdog.
+fn cli_stress_leg(total: &mut Ev, thorough: bool) -> Result<(), String> {
+    use std::io::Read;
+    use std::os::unix::process::ExitStatusExt;
+    let cli = match std::env::var("VERIF_CLI").map(std::path::PathBuf::from) {
+        Ok(p) if p.exists() => p,
+        _ => return Err("VERIF_CLI is not set or does not exist (the check script builds the avra-rs binary for C16)".into()),
+    };
+    let mut inputs = stress_inputs();
+    inputs.retain(|(src, tag)| !SLOW_KNOWN.contains(&tag.as_str()) && (thorough || src.len() <= 300_000));
+    let dir = crate::run::scratch_dir().join("c16-cli");
+    let _ = std::fs::create_dir_all(&dir);
+    let run_one = |i: usize, src: &String, tag: &String, limit_s: u64| -> (String, String, Option<String>) {
+            let f = dir.join(format!("s{}.asm", i));
+            let _ = std::fs::write(&f, src);
+            let mut child = match std::process::Command::new("sh")
+                .arg("-c")
+                .arg("ulimit -v 1048576; exec \"$0\" -s \"$1\" -o \"$1.hex\" -e \"$1.eep.hex\"")
+                .arg(&cli)
+                .arg(&f)
+                .env("RUST_BACKTRACE", "0")
+                .env("HOME", &dir)
+                .stdout(std::process::Stdio::null())
+                .stderr(std::process::Stdio::piped())
+                .spawn()
+            {
+                Ok(c) => c,
+                Err(e) => return (tag.clone(), src.clone(), Some(format!("infrastructure: cannot run the CLI: {}", e))),
+            };
+            let start = std::time::Instant::now();
+            let verdict = loop {
+                match child.try_wait() {
+                    Ok(Some(st)) => {
+                        break match (st.code(), st.signal()) {
+                            (Some(0), _) | (Some(1), _) => None,
+                            (Some(c), _) => {
+                                let mut e = String::new();
+                                let _ = child.stderr.take().map(|mut x| x.read_to_string(&mut e));
+                                // exit status 101 is a Rust panic, 134 comes through the shell for SIGABRT
+                                Some(format!("exit status {} ({})", c, crate::run::truncate(e.trim(), 160)))
+                            }
+                            (None, Some(sig)) => Some(format!("killed by signal {}", sig)),
+                            _ => Some("ended without status".into()),
+                        };
+                    }
+                    Ok(None) => {
+                        if start.elapsed().as_secs() >= limit_s {
+                            let _ = child.kill();
+                            let _ = child.wait();
+                            break Some(format!("no result within {} s", limit_s));
+                        }
+                        std::thread::sleep(std::time::Duration::from_millis(5));
+                    }
+                    Err(e) => break Some(format!("infrastructure: {}", e)),
+                }
+            };
+            for ext in ["", ".hex", ".eep.hex"] {
+                let _ = std::fs::remove_file(format!("{}{}", f.display(), ext));
+            }
+            (tag.clone(), src.clone(), verdict)
+    };
+    let mut results: Vec<(String, String, Option<String>)> = inputs.par_iter().enumerate().map(|(i, (src, tag))| run_one(i, src, tag, 60)).collect();
+    // a time limit hit while sixteen of these run side by side says little: such inputs run again, alone
+    for (i, r) in results.iter_mut().enumerate() {
+        if matches!(&r.2, Some(v) if v.contains("within")) {
+            *r = run_one(i, &inputs[i].0, &inputs[i].1, 120);
+        }
+    }
+    for (tag, src, verdict) in results {
+        total.eval();
+        total.class("stress-through-the-debug-cli");
+        match verdict {
+            None => {}
+            Some(v) if v.starts_with("infrastructure") => return Err(format!("C16 CLI leg: {}", v)),
+            Some(v) => {
+                let kind = if v.contains("signal") || v.contains("status 134") || v.contains("overflow") { "stack-or-abort" } else if v.contains("within") { "timeout" } else if v.contains("status 101") { "panic" } else { "crash" };
+                total.violation(Violation { sig: format!("c16:cli-debug:{}:{}", tag, kind), what: format!("{:?} through the unoptimised command-line tool: {}", crate::run::truncate(&src, 120), v), replay: json!({"kind": "cli_no_crash", "src": if src.len() <= 200_000 { src.clone() } else { String::new() }, "stress_tag": tag}) });
+            }
+        }
+    }
+    let _ = std::fs::remove_dir_all(&dir);
+    Ok(())
+}
+
 pub fn rule() -> String {
-    "(a) bounded-exhaustive: every directive (37) and mnemonic (incl. all br*/se*/cl* forms and an unknown one) × every operand list of length 0–2 over a dictionary of 29 valid, boundary and hostile operand texts × 5 contexts (alone, after .dseg, after .eseg, inside a macro body that is then called, after .device ATtiny10), and every list of length 3 alone (thorough: in every context); (b) 1–3 random mutations (line delete/duplicate/swap/join, hostile token splice/replace, truncation mid-token, unbalancing .if/.macro, raw bytes, repeated nesting characters ≤ 61) of generated valid programs (union generator) and of the repository's test fixtures, ≤ 64 KiB; (c) ~150 structural stress inputs (nesting depth up to 30000, recursion through .equ / .set / macros, absurd .org/.byte, 64 KiB tokens). Each case is built in an isolated worker (8 MiB stack, 1 GiB address space, 10 s/30 s watchdog); the outcome must be Ok or Err. Non-trivial = the case is not a well-formed program (the tool returns Err) or it crashes; distinct = distinct source text".into()
+    "(a) bounded-exhaustive: every directive (37) and mnemonic (incl. all br*/se*/cl* forms and an unknown one) × every operand list of length 0–2 over a dictionary of 29 valid, boundary and hostile operand texts × 5 contexts (alone, after .dseg, after .eseg, inside a macro body that is then called, after .device ATtiny10), and every list of length 3 alone (thorough: in every context); (b) 1–3 random mutations (line delete/duplicate/swap/join, hostile token splice/replace, truncation mid-token, unbalancing .if/.macro, raw bytes, repeated nesting characters ≤ 61) of generated valid programs (union generator) and of the repository's test fixtures, ≤ 64 KiB; (c) ~150 structural stress inputs (nesting depth up to 30000, recursion through .equ / .set / macros, absurd .org/.byte, 64 KiB tokens). Each case is built in an isolated worker (2 MiB stack, 1 GiB address space, 10 s/30 s watchdog); the outcome must be Ok or Err. (d) the stress inputs once more through the unoptimised command-line binary on its default 8 MiB stack: it must end with exit status 0 or 1 within 60 s, never by a signal. Non-trivial = the case is not a well-formed program (the tool returns Err) or it crashes; distinct = distinct source text".into()
 }
